@@ -13,6 +13,7 @@ import PyTealV
 import PyTealV.Cmd
 import PyTealV.Avm.Trace
 import PyTealV.Check.Validate
+import PyTealV.Check.ValidateProg
 open PyTealV PyTealV.Avm
 
 structure DState where
@@ -121,6 +122,13 @@ def handle (st : DState) (line : String) : DState × String :=
       | some false => (st, "differ " ++ Compare.showOutcome true a ++ " ## " ++ Compare.showOutcome true b)
       | none => (st, "skip " ++ Compare.clsName (Compare.cls a) ++ "/" ++ Compare.clsName (Compare.cls b))
     | _, _, _, _ => (st, "perr unknown id")
+  | ["validateprog", pid, tid, ver, fp] =>
+    match lookup st.progs pid, lookup st.teals tid, Util.parseNat ver with
+    | some sp, some tp, some v =>
+      (match Check.validateProg v (fp == "1") sp tp with
+       | .ok r => (st, s!"valid routines={r.routines} rel={r.relSize} slots={r.bindings} spilled={r.spilledCalls}")
+       | .error e => (st, "invalid " ++ (e.replace "\n" " ")))
+    | _, _, _ => (st, "perr unknown id")
   | ["genclass", pid, ver] =>
     match lookup st.progs pid, Util.parseNat ver with
     | some sp, some v =>
